@@ -94,6 +94,26 @@ func (x *runner) corpus() {
 			{Op: "data", SID: "a", IQ: true, Seq: "1", Data: d64("QUJD")},
 			{Op: "closer", SID: "a"},
 			{Op: "read", SID: "a", N: 2}, {Op: "read", SID: "a", N: 2}, {Op: "read", SID: "a", N: 2}}},
+		// the peer refuses a data packet of the local writer and then closes: the
+		// close request must be answered, the error stays with the writer
+		{Events: []evJ{{Op: "openl", SID: "a", BS: 8, Accept: true},
+			{Op: "data", SID: "a", IQ: true, Seq: "0", Data: d64("QUJD")},
+			{Op: "write", SID: "a", Accept: true},
+			{Op: "write", SID: "a", Accept: false},
+			{Op: "write", SID: "a", Accept: true},
+			{Op: "closer", SID: "a"},
+			{Op: "write", SID: "a", Accept: true},
+			{Op: "read", SID: "a", N: 64}, {Op: "read", SID: "a", N: 64}}},
+		{Events: []evJ{{Op: "openr", SID: "a", BS: 2, Listening: true, Stanza: "iq"},
+			{Op: "write", SID: "a", Accept: false},
+			{Op: "closer", SID: "a"},
+			{Op: "data", SID: "a", IQ: true, Seq: "0", Data: d64("QUJD")},
+			{Op: "read", SID: "a", N: 4}}},
+		{Events: []evJ{{Op: "openr", SID: "a", BS: 64, Listening: true, Stanza: "message"},
+			{Op: "write", SID: "a", Accept: false},
+			{Op: "write", SID: "a", Accept: true},
+			{Op: "closel", SID: "a"},
+			{Op: "write", SID: "a", Accept: true}}},
 		// nobody listens
 		{Events: []evJ{{Op: "openr", SID: "a", BS: 8, Listening: false},
 			{Op: "data", SID: "a", IQ: true, Seq: "0", Data: d64("QUJD")}, {Op: "closer", SID: "a"}}},
